@@ -55,6 +55,9 @@ func TestDev(t *testing.T) {
 				counts[k] += v
 			}
 			counts["fields"] += res.K.fields
+			if e, ok := res.Summary["json_decode_error"].(string); ok {
+				counts["jsonerr: "+e]++
+			}
 			for _, m := range res.K.mm {
 				keys[m.Key]++
 				if first[m.Key] == "" {
